@@ -172,8 +172,55 @@ def run_impl(osy, written, req, nout=None, ds=None, want_trace=True):
     return res
 
 
-def driver_case(out, req, mode, files=False):
-    return {"engine": "loader", "mode": mode, "output": ramses.to_json(out), "req": req_for_driver(req), "files": files}
+_LEGACY = {}
+
+
+def legacy_units(osy, out):
+    res = []
+    if out.get("sink"):
+        for u in out["sink"]["units"]:
+            if "[" in u and "]" in u:
+                t = u.strip().replace("[", "").replace("]", "")
+                if t != "1":
+                    if t not in _LEGACY:
+                        _LEGACY[t] = ucat.unit_sym(osy, t)
+                    res.append({"name": t, "sym": _LEGACY[t]})
+    return res
+
+
+def driver_case(out, req, mode, files=False, osy=None):
+    c = {"engine": "loader", "mode": mode, "output": ramses.to_json(out), "req": req_for_driver(req), "files": files}
+    if osy is not None:
+        c["legacy_units"] = legacy_units(osy, out)
+    return c
+
+
+def compare_sink(out, impl_groups, model, exact, sink_on=True):
+    """sink group vs the model / Spec sink columns"""
+    want = model.get("sink") if sink_on else None
+    if want is None:
+        return None if "sink" not in impl_groups else "a sink group was returned although there is no sink file (or sinks were switched off)"
+    if "sink" not in impl_groups:
+        return "sink group missing"
+    cols = [(k, v) for k, v, _ in want]
+    syms = {k: sym for k, _, sym in want}
+    layout = expected_layout(cols, model.get("sink_merges", []))
+    icols, iorder = flatten_impl(impl_groups, "sink")
+    got_keys = [(k, kind) for k, kind, _ in iorder]
+    want_keys = [(k, kind) for k, kind, _ in layout]
+    if got_keys != want_keys:
+        return f"sink keys: impl={got_keys} model={want_keys}"
+    md = dict(cols)
+    for key, kind, src in layout:
+        for ci, sname in enumerate(src):
+            ik = key + ("." + "xyz"[ci] if kind == "vec" else "")
+            vals, dt, sym = icols[ik]
+            d = cmp_vals(vals, md[sname], 1.0, exact)
+            if d:
+                return f"sink[{ik}] {d}"
+            if [list(x) for x in sym] != [[n, x] for n, x in syms[sname]]:
+                return f"sink[{ik}] unit: impl={sym} model={syms[sname]}"
+    return None
 
 
 def pending_factor(out, pend):
